@@ -154,7 +154,9 @@ def run(ctx):
     reqs = []
     index = []
     for c in cases:
-        reqs.append({"kind": "rewrite", "case": c})
+        # patches with prologues draw on per-process ABI objects: those rewrites are also repeated inside one process
+        twice = any(e.get("constraints") for e in c.get("edits", []))
+        reqs.append({"kind": "rewrite", "case": c, "twice": twice})
         index.append(("run", c))
         p = permuted(c, ctx.rng)
         if p is not None:
@@ -197,6 +199,11 @@ def run(ctx):
         if crash:
             ctx.notes.append("worker crashed on a case: " + crash)
             ctx.count("worker-crash")
+            continue
+        again = next((a["again_differs"] for a in answers if a.get("again_differs")), None)
+        if again:
+            ctx.violation("C11:second-run-in-one-process-differs", "the same rewrite of a freshly built module gives another result the second "
+                          "time it runs in one process: %s" % (again,), payload)
             continue
         for a in answers[1:]:
             if a != answers[0]:
